@@ -19,18 +19,25 @@ import tracecheck
 KF = {  # KNOWN_FINDINGS key -> boolean constant of the trace specification
     "tdpos-pre-init-slot": ("sched", "KF_TdposPreInit"),
     "xpoa-negative-timestamp": ("sched", "KF_XpoaNegativeTs"),
+    "tdpos-term-set-offset": ("sched", "KF_TdposTermSetOffset"),
     "pow-grandparent-target": ("pow", "KF_PowGrandparentBits"),
 }
+OWN_KNOWN = os.path.join(vp.VERIF, "findings", "C16.known")
 
 
 def _known():
+    """known: lines of /verif/KNOWN_FINDINGS.txt and of findings/C16.known (the proposal file of this check, same
+    format; VERIF_NO_PROPOSED_KNOWN=1 ignores it); VERIF_C16_PROPOSED_KF names one more file for dry runs."""
     known = dict(vp.known_keys("C16"))
-    extra = os.environ.get("VERIF_C16_PROPOSED_KF")     # dry runs before the proposed lines are merged
-    if extra:
-        for line in open(extra):
-            m = re.match(r"known:\s+property=C16\s+key=(\S+).*?::\s*(.*)$", line.strip())
-            if m:
-                known.setdefault(m.group(1), m.group(2))
+    files = [os.environ.get("VERIF_C16_PROPOSED_KF")]
+    if not os.environ.get("VERIF_NO_PROPOSED_KNOWN"):
+        files.append(OWN_KNOWN)
+    for extra in files:
+        if extra and os.path.exists(extra):
+            for line in open(extra):
+                m = re.match(r"known:\s+property=C16\s+key=(\S+).*?::\s*(.*)$", line.strip())
+                if m:
+                    known.setdefault(m.group(1), m.group(2))
     return known
 
 
@@ -135,7 +142,13 @@ def check(run):
     run.cov["schedule"] = s
     run.cov["pow"] = p
     run.assumptions += [
-        "validator sets are the configured initial sets (candidate blocks at height 2; election by vote / contract is not part of C16)",
+        "validator sets in force are read by the real plugins from a stub ledger (QueryBlockByHeight, CreateSnapshot(blockid).Get, "
+        "GetTipXMSnapshotReader, block consensus storage) that stores what the xpoa / tdpos contracts record (xpoa: <version>_validates; "
+        "tdpos: nominate and vote records whose top proposer_num is the modelled election result); the contracts that write these "
+        "records (editValidates, nominate / vote, ballots arithmetic) are not part of C16",
+        "xpoa without bft_config (the rollback height in the consensus storage of chained-bft blocks is not driven); tdpos: candidate "
+        "blocks extend the tip (height tip+1), stored blocks carry the term of their own timestamp; a candidate whose timestamp lies in "
+        "a term before the tip's term is not judged",
         "big-integer arithmetic of math/big and the ECDSA primitives are trusted; targets are exercised on the domain "
         "below 2^31 and shifted by 26 bytes (values >= 2^16, where the code's arithmetic commutes with the shift); "
         "the compact sweep covers all sizes for boundary and seeded words, not all 2^32 encodings",
@@ -148,6 +161,25 @@ def check(run):
         "candidates_accepted": (s.get("Accepted", 0), 1000),
         "candidates_rejected": (s.get("Rejected", 0), 1000),
         "single_cases": (s.get("SingleCases", 0), 72),
+        # the validator-set dimension (measured on the real instances: the node's own set is read through GetConsensusStatus,
+        # recorded sets count only when the real lookup fetched them from the stub's snapshots)
+        "validator_set_chain_walks": (s.get("ChainWalks", 0), 300),
+        "walks_served_a_recorded_set": (s.get("RecordedServedWalks", 0), 200),
+        "checks_set_in_force_differs_in_size_from_node_set": (s.get("SizeDiffChecks", 0), 5000),
+        "accepted_where_sizes_differ": (s.get("SizeDiffAccepted", 0), 500),
+        "rejected_where_sizes_differ": (s.get("SizeDiffRejected", 0), 2000),
+        "checks_set_in_force_smaller_than_node_set": (s.get("InForceSmaller", 0), 2000),
+        "checks_set_in_force_larger_than_node_set": (s.get("InForceLarger", 0), 2000),
+        "checks_same_size_other_members_or_order": (s.get("OrderDiffChecks", 0), 5000),
+        "accepted_same_size_other_members_or_order": (s.get("OrderDiffAccepted", 0), 500),
+        "checks_bootstrap_heights_on_recording_chain": (s.get("BootstrapChecks", 0), 5000),
+        "accepted_bootstrap_heights_on_recording_chain": (s.get("BootstrapAccepted", 0), 500),
+        "checks_recorded_set_in_force": (s.get("RecordedChecks", 0), 5000),
+        "accepted_recorded_set_in_force": (s.get("RecordedAccepted", 0), 500),
+        "accepted_producers_outside_initial_set": (s.get("AcceptedNonInitial", 0), 500),
+        "tdpos_chain_walks": (s.get("TdposChainWalks", 0), 100),
+        "tdpos_accepted_in_tip_term": (s.get("TdposTipTermAccepted", 0), 500),
+        "tdpos_accepted_in_new_term": (s.get("TdposNewTermAccepted", 0), 500),
         "single_accepted": (s.get("SingleAccepted", 0), 1),
         "pow_chains": (p.get("Chains", 0), 1000),
         "pow_retargets": (p.get("Retargets", 0), 1000),
